@@ -47,6 +47,7 @@ type Step struct {
 	Settle bool              `json:"settle,omitempty"`
 	Meta   string            `json:"meta,omitempty"`
 	Shape  string            `json:"shape,omitempty"`
+	More   map[string]Val    `json:"more,omitempty"` // change event: further keys of the same event
 	Drain  []Step            `json:"drain,omitempty"` // stop / mqlost: delivered by the messaging client while it is being closed
 }
 
@@ -181,7 +182,7 @@ func (w *World) do(st Step) bool {
 		if st.Val != nil {
 			v = *st.Val
 		}
-		return w.sim.event(st.N, st.Ev, st.A, st.K, v, st.Force)
+		return w.sim.event(st.N, st.Ev, st.A, st.K, v, st.Force, st.More)
 	case "inject":
 		return w.sim.inject(st.N, st.Shape)
 	case "mutate":
